@@ -33,30 +33,30 @@ type Obligation struct {
 }
 
 type Engine struct {
-	tb       *TB
-	prog     *ssa.Program
-	fset     *token.FileSet
-	pkgs     []*packages.Package
-	ssaPkgs  map[string]*ssa.Package
-	specs    *Specs
-	sizes    types.Sizes
-	funcs    map[string]*ssa.Function // by String()
-	initHeap map[string]*Term
-	repoDir  string
-	repoPkgs map[string]bool // package paths inside the repo module
-	typeTags map[string]*Term
-	tagNames map[string]string
-	axioms   []*Term
-	usedExt  map[string]bool // external contracts used (trusted base)
-	havocked map[string]bool // callees havocked without contract
-	notes    map[string]bool
+	tb         *TB
+	prog       *ssa.Program
+	fset       *token.FileSet
+	pkgs       []*packages.Package
+	ssaPkgs    map[string]*ssa.Package
+	specs      *Specs
+	sizes      types.Sizes
+	funcs      map[string]*ssa.Function // by String()
+	initHeap   map[string]*Term
+	repoDir    string
+	repoPkgs   map[string]bool // package paths inside the repo module
+	typeTags   map[string]*Term
+	tagNames   map[string]string
+	axioms     []*Term
+	usedExt    map[string]bool // external contracts used (trusted base)
+	havocked   map[string]bool // callees havocked without contract
+	notes      map[string]bool
 	wantPanics bool
 	usedAxioms map[string]bool
 	attrIndex  map[string]*TypeAttr
 	attrTypes  map[string]types.Type
 	gaddrs     map[*Term]bool
 	aliases    map[string]map[string]string // function -> contract variable name -> current source name (pure renames)
-	instCache  map[[2]*Term]*Term // (quantifier, instance term) -> instantiated body, shared by all obligations
+	instCache  map[[2]*Term]*Term           // (quantifier, instance term) -> instantiated body, shared by all obligations
 }
 
 func NewEngine(repoDir string, specDir string) (*Engine, error) {
